@@ -4,8 +4,9 @@ import json, os, re, subprocess, sys, time, hashlib, shutil, concurrent.futures,
 
 VERIF = os.path.dirname(os.path.dirname(os.path.abspath(__file__)))
 REPO = os.environ.get('IPR_REPO', '/repo')
-BUILD = os.path.join(VERIF, 'build')
-CXX2C = os.path.join(BUILD, 'cxx2c')
+BUILD = os.environ.get('IPR_BUILD', os.path.join(VERIF, 'build'))
+OUT = os.environ.get('IPR_OUT', VERIF)     # evidence/ and replay_out/ go here (seed sweeps on scratch worktrees use their own)
+CXX2C = os.path.join(VERIF, 'build', 'cxx2c')
 CLANG_ARGS = ['-std=c++20', '-I' + REPO + '/include', '-I' + REPO + '/src', '-resource-dir', '/usr/lib/llvm-14/lib/clang/14.0.6',
               '-Wno-everything']
 MEM_KB = int(os.environ.get('IPR_CBMC_MEM_KB', str(12 * 1024 * 1024)))
@@ -417,7 +418,7 @@ def run_property(pid, tier, obs, units, seed, level='proof', assumptions=(), tru
     known = load_known_findings()
     baseline = load_baseline()
     violations, known_hits = [], []
-    os.makedirs(os.path.join(VERIF, 'replay_out'), exist_ok=True)
+    os.makedirs(os.path.join(OUT, 'replay_out'), exist_ok=True)
     obmap = {o.id: o for o in obs}
     for r in results:
         if r['status'] == 'undecided':
@@ -443,7 +444,7 @@ def run_property(pid, tier, obs, units, seed, level='proof', assumptions=(), tru
                     undecided.append(dict(id=r['id'], reason='fails but is not in the committed baseline of obligations (new instance?): ' + rest[0]['description']))
                     continue
                 ob = obmap[r['id']]
-                rp = os.path.join(VERIF, 'replay_out', '%s__%s.json' % (pid, re.sub(r'[^A-Za-z0-9_.-]', '_', r['id'])))
+                rp = os.path.join(OUT, 'replay_out', '%s__%s.json' % (pid, re.sub(r'[^A-Za-z0-9_.-]', '_', r['id'])))
                 replay = dict(property=pid, obligation=r['id'], clause=r['clause'], kind=r['kind'], unit=r['unit'], checker_cmd=r.get('cmd'),
                               failed=rest, cbmc_output=os.path.join(r['dir'], 'cbmc.json'), native=None)
                 confirmed = None
@@ -474,7 +475,7 @@ def run_property(pid, tier, obs, units, seed, level='proof', assumptions=(), tru
         except Undecided as e:
             ok, text = None, str(e)
         if ok:
-            rp = os.path.join(VERIF, 'replay_out', '%s__native_sweep.json' % pid)
+            rp = os.path.join(OUT, 'replay_out', '%s__native_sweep.json' % pid)
             json.dump(dict(property=pid, obligation='(undecided: %s)' % '; '.join(u_['id'] for u_ in undecided), kind='native sweep (bounded exploration fallback)',
                            undecided=undecided, native_family=sweep_family, native_args={}, native=text, reproduced_on_real_code=True), open(rp, 'w'), indent=1)
             violations.append((dict(id='native-sweep', failed=[dict(description=l) for l in text.splitlines() if 'REPLAY-FAIL' in l][:4]), rp, True))
@@ -514,8 +515,8 @@ def run_property(pid, tier, obs, units, seed, level='proof', assumptions=(), tru
               violations=len(violations))
     if level == 'model_checking':
         cov['evaluations'] = max(1, len(results)); cov['distinct_nontrivial'] = max(2, len(results))
-    os.makedirs(os.path.join(VERIF, 'evidence'), exist_ok=True)
-    json.dump(ev, open(os.path.join(VERIF, 'evidence', pid + '.json'), 'w'), indent=1)
+    os.makedirs(os.path.join(OUT, 'evidence'), exist_ok=True)
+    json.dump(ev, open(os.path.join(OUT, 'evidence', pid + '.json'), 'w'), indent=1)
     npass = len([r for r in results if r['status'] == 'pass'])
     print('%s %s: %d obligations, %d discharged (%d bounded), %d violated, %d undecided, %.0fs' % (
         pid, tier, len(results), npass, len(bounded), len(violations), len(undecided), time.time() - t0))
